@@ -50,8 +50,9 @@ def compact_plain(d):
 def observe_docs(docs, safes, lifecycle=False):
     import drive
     import evalobs
+    texts = [S.render_doc(d) for d in docs]      # a document the harness cannot render is a machinery error, not an outcome
     try:
-        tree = drive.build_tree(docs, safes)
+        tree = drive.build_tree(docs, safes, texts)
     except Exception as e:  # noqa
         return None, {"status": drive.errclass(e), "data": None, "ids": [], "classes": [], "calls": [], "ev": [], "issues": [], "lifecycle": "n/a"}
     return tree, evalobs.observe(tree, lifecycle=lifecycle)
